@@ -75,7 +75,7 @@ CHECKS["C08"] = E("C08", "Every sentence of a bounded command grammar (all comma
    "25 fetch items with sections and partials, search keys nested to depth 2/3, LIST-EXTENDED, APPEND with flags/date/literal) is generated with its meaning and must be accepted, "
    "fully consumed and decoded to that meaning by the real parser; every truncation and single-point edit (thorough: double edits of short sentences) of the core sentences must parse "
    "or raise BadCommand; rejected sentences replayed through the real IMAPClientProxy.run() must get BAD and leave the connection usable.",
-   tech="grammar-directed exhaustive sentence generation + exhaustive single-edit mutation")
+   tech="grammar-directed exhaustive sentence generation + exhaustive single-edit mutation decided against an independent recogniser of the command grammar")
 CHECKS["C09"] = E("C09", "Every path of <=3 (thorough: <=4) components over {.., ., '', a, inbox, decoy, secret} with prefixes {'', '/', '//'} in atom/quoted/literal encoding is put into "
    "every mailbox-name position of 27 commands (incl. LIST/LSUB reference and patterns with wildcards) on a jail whose neighbour folder holds token-tagged mail; everything outside the "
    "mail root must stay byte-identical, no response may carry the neighbour's content, counts or names, names with no inside reading must be refused, no DB row may name an outside path.")
@@ -110,30 +110,31 @@ NOT_YET = {}
 
 # additions made while the checks were strengthened against seeded changes (DESIGN.md section 7, seeded/README.md)
 EXTRA = {
+ "C07": " Third session: shapes with quotes in media types / dispositions, empty and two-@ address fields; HEADER.FIELDS labels with string names; commands that find nothing (fixed-shape response codes are validated); a history part: ENVELOPE / BODYSTRUCTURE describe the message the model expects at that UID after messages go and come.",
  "C01": " A second BFS starts from a state where a quiet session holds a pending EXPUNGE; a schedule part runs eight two-session scenarios (re-SELECT, EXPUNGE/MOVE against "
-        "FETCH incl. a slow reader) under every schedule with <=2 (thorough 2-3) deviations and reports the stream rules.",
- "C02": " A second, deeper BFS runs over a six-event core alphabet (messages go, come, pack, restart); deliveries also go into a mailbox nobody has selected.",
- "C03": " A deeper BFS over a six-event core alphabet and a schedule part (UID FETCH / FETCH overlapping another session's EXPUNGE / CLOSE, incl. slow readers) complete the check.",
+        "FETCH incl. a slow reader) under every schedule with <=2 (thorough 2-3) deviations and reports the stream rules. Third session: two more scenarios have a slow reader at a flush point that does not queue on the mailbox (CAPABILITY, LSUB) while another session expunges.",
+ "C02": " A second, deeper BFS runs over a six-event core alphabet (messages go, come, pack, restart); deliveries also go into a mailbox nobody has selected. Third session: a delivery within the second of the folder's mtime followed by idle time (pack opportunity) is an event; schedule scenarios CREATE | CREATE with epilogues (DELETE n1; RENAME n2 n1 / restart, delete and create again) decide that no (name, UIDVALIDITY) pair names two incarnations.",
+ "C03": " A deeper BFS over a six-event core alphabet and a schedule part (UID FETCH / FETCH overlapping another session's EXPUNGE / CLOSE, incl. slow readers) complete the check. Third session: RENAME INBOX and the same-second-delivery + idle event are in the alphabet; a refused UID FETCH is a failure; messages moved by RENAME INBOX keep their internal date.",
  "C04": " A second, deeper BFS over a narrow 'toggling' alphabet (one session flips flags while the other stays quiet, polls or looks); \\Recent is checked by three necessary "
-        "conditions (never comes back on the wire or in .mh_sequences, unchanged by STORE).",
- "C05": " The matrix is repeated from start states in which MH keys and UIDs differ (the former top message expunged before two more arrived).",
- "C06": " Schedule part: DELETE/RENAME races and commands that do not touch messages (SUBSCRIBE, EXAMINE, CREATE child ...) sent while another session's FETCH is in progress.",
- "C08": " Every string over {1,7,2,:,*,','} up to length 5 (thorough 6) is put in nine message-set positions and decided by an independent recogniser of the RFC 3501 sequence-set grammar.",
+        "conditions (never comes back on the wire or in .mh_sequences, unchanged by STORE). Third session: system flags in other letter case, keywords an MH folder cannot hold (':' / non-ASCII: refused without effect or stored), and an INBOX(4) plan with flag changes around an EXPUNGE that renumbers while the other session is quiet.",
+ "C05": " The matrix is repeated from start states in which MH keys and UIDs differ (the former top message expunged before two more arrived). Third session: a schedule part (COPY | EXPUNGE, MOVE | MOVE, COPY into the own mailbox | STORE, opposite COPYs) under every schedule with <=2 deviations: final contents and flags sequential.",
+ "C06": " Schedule part: DELETE/RENAME races and commands that do not touch messages (SUBSCRIBE, EXAMINE, CREATE child ...) sent while another session's FETCH is in progress. Third session: cells for commands sent while IDLE is active without DONE first, and for keywords the store cannot hold.",
+ "C08": " Every string over {1,7,2,:,*,','} up to length 5 (thorough 6) is put in nine message-set positions and decided by an independent recogniser of the RFC 3501 sequence-set grammar. Third session: differential acceptance -- every truncation / single edit of every quick-grammar sentence (2.2 million) is also read by an independent recogniser of the whole command grammar (vf/refmodel/cmdgrammar.py): in the language <=> accepted, with the same meaning.",
  "C09": " Names built from the jail's own absolute path and names reaching a sibling whose name starts with the mail directory's name are added; every name runs through two command "
-        "orders (probing first / creating its inside reading first).",
+        "orders (probing first / creating its inside reading first). Third session: existence oracle -- every escaping name is also run with a twin of equal length whose outside components do not exist; all responses must be identical.",
  "C10": " Scenarios include slow readers (writer.drain() parked), a reader parked mid-FETCH as a start state, re-SELECT races, three sessions; client inputs postponed by one deviation "
-        "stay postponed; every COPYUID destination UID must hold the source's content.",
- "C11": " Quick tier: 17 histories incl. mailboxes emptied completely, plus every ordered pair of a 9-command alphabet after the client has learnt all UIDs.",
+        "stay postponed; every COPYUID destination UID must hold the source's content. Third session: COPY into the own mailbox vs STORE (thorough: MOVE variant, three-session opposite COPYs + STORE); slow readers at CAPABILITY / LSUB.",
+ "C11": " Quick tier: 17 histories incl. mailboxes emptied completely, plus every ordered pair of a 9-command alphabet after the client has learnt all UIDs. Third session: CREATE | CREATE under every schedule with <=1 (thorough 2) deviations, kill, restart, delete and create each name again: larger UIDVALIDITY.",
  "C12": " A second, deeper BFS over an eight-event core alphabet (append, expunge, keywords, RENAME INBOX, DELETE/CREATE of a parent, SUBSCRIBE).",
  "C13": " Same-second deliveries (folder mtime unchanged) are composite events; a schedule part fires the delivery at every scheduling point inside STORE / FETCH / APPEND / COPY / "
-        "EXPUNGE / NOOP and into the destination of a running COPY / MOVE.",
- "C14": " The corpus has Date headers that fall on another day in UTC, an empty header field, and empty search strings.",
+        "EXPUNGE / NOOP and into the destination of a running COPY / MOVE. Third session: the agent files messages under further MH sequences (flagged, replied, Draft); a plan with the pack threshold lowered (deliveries around a pack).",
+ "C14": " The corpus has Date headers that fall on another day in UTC, an empty header field, and empty search strings. Third session: a corpus message with a repeated header field.",
  "C16": " A history part evaluates the equations on every state of a depth-4/5 BFS (sizes asked, messages expunged, numbers reused, folder packed); partials are probed beyond the "
-        "item's end and on HEADER/TEXT/parts; a section menu is fetched for every shape.",
+        "item's end and on HEADER/TEXT/parts; a section menu is fetched for every shape. Third session: RENAME INBOX and header/ENVELOPE fetches in the history alphabet.",
  "C17": " A second, deeper BFS over an eight-event core alphabet; names behind the namespace prefix and names with all-digit components; LSUB attributes and the advertised "
-        "LIST-EXTENDED forms (SUBSCRIBED selection, RETURN SUBSCRIBED/CHILDREN/STATUS) are compared too.",
+        "LIST-EXTENDED forms (SUBSCRIBED selection, RETURN SUBSCRIBED/CHILDREN/STATUS) are compared too. Third session: a plan over look-alike names (a_b / axb / axb/k: SQL LIKE wild cards; letter case; w / w/x / w-old: names sorting below '/').",
  "C18": " 'Current password': the password file is rewritten (changed, disabled, removed, same hash) while the server runs; the old password must then be refused.",
- "C19": " The menu has 15 items (incl. commands ending directly after a literal whose last octets look like a declaration).",
+ "C19": " The menu has 15 items (incl. commands ending directly after a literal whose last octets look like a declaration). Third session: the client connection's stream buffer is lowered together with MAX_INPUT_SIZE (40 < 64, as 64 KiB < 10 MiB in production); 17 items incl. lines longer than the buffer.",
  "C20": " A second BFS starts with the POP3 session open over the DELE/RSET/QUIT bookkeeping; a schedule part races QUIT, RETR and TOP against IMAP EXPUNGE / UID FETCH / MOVE / APPEND "
         "(the POP3 handler's own attributes are part of the canonical state).",
 }
